@@ -205,7 +205,7 @@ class Suite:
         if isinstance(body, JObj) and body:
             i = rng.randrange(len(body))
             k, v = body[i]
-            out.append(("missing_field", JObj([(name, JObj([x for j, x in enumerate(body) if j != i]))])))
+            out.append(("missing_field:" + k, JObj([(name, JObj([x for j, x in enumerate(body) if j != i]))])))
             out.append(("extra_field", JObj([(name, JObj(list(body) + [("zz_extra", 1)]))])))
             out.append(("dup_field", JObj([(name, JObj(list(body) + [(k, v)]))])))
             bad = "zz" if not isinstance(v, str) else 17
@@ -320,7 +320,22 @@ class Suite:
     def judge_document(self, c, p, label, d, wobs, pobs, pmetas, wmodel, pmodels):
         run = self.run
         run.count()
+        full_label, label = label, label.split(":")[0]
         run.dist("doc:%s" % label)
+        if label == "missing_field" and getattr(self, "c17", False):
+            # C17: an attribute on the argument takes effect on the field: `default` (or an Option type) makes it optional
+            fname = full_label.split(":", 1)[1]
+            arg = [a for a in c.method.args if a.name == fname]
+            if arg and not any("rename" in x.toks for x in arg[0].attrs):
+                optional = any(x.path == ("serde",) and "default" in x.toks for x in arg[0].attrs) or \
+                    (arg[0].ty.kind == "path" and arg[0].ty.segs[-1][0] == "Option")
+                own = [o for o, meta in zip(pobs, pmetas) if meta[4][0] == c.part]
+                if own:
+                    acc = "ok" in own[0]
+                    if acc != optional:
+                        run.oracle_fail("document without field `%s` is %s by its message; the argument is %s" % (
+                            fname, "accepted" if acc else "rejected", "optional (default / Option)" if optional else "mandatory"),
+                            {"prog": c.prog, "program": self.describe(p), "document": jsonx.to_text(d), "field": fname})
         text = jsonx.to_text(d)
         desc = {"prog": c.prog, "program": self.describe(p), "kind": c.kind, "document": text, "derived_from": c.doc_text,
                 "mutation": label}
